@@ -253,14 +253,14 @@ func (o *propOutcome) finish() int {
 		nInst += len(r.Instances)
 		fmt.Printf("%s %-14s instances=%d obligations=%d discharged=%d findings=%d undecided=%d\n", o.prop, r.Rule, len(r.Instances), r.Obligations, r.Discharged, len(r.Findings), len(r.Undecided))
 	}
-	if len(o.broken) > 0 {
-		for _, b := range o.broken {
-			fmt.Println("BROKEN-CHECK:", b)
-		}
-		return 2
+	for _, b := range o.broken {
+		fmt.Println("BROKEN-CHECK:", b)
 	}
 	if violations > 0 {
-		return 1
+		return 1 // a reported violation stands even if another rule instance could not be decided
+	}
+	if len(o.broken) > 0 {
+		return 2
 	}
 	fmt.Printf("%s OK (%s): %d rule instances, %d/%d obligations, %d known findings, %.1fs\n", o.prop, o.tier, nInst, dis, obl, len(knownLines), time.Since(o.start).Seconds())
 	return 0
